@@ -281,6 +281,25 @@ func checkEnvelopeInner(c envCase, r *h.Rec) error {
 		return fmt.Errorf("the enveloping API refused a combination of the domain: %v: %s", err, c.Key())
 	}
 	if strings.HasPrefix(c.API, "Session") {
+		// documented: recipient versions other than 0, 1, 2 are refused (and add nothing)
+		ed2, err := pkcs7.NewEnvelopedDataWithSession(ci.c, content, &recSession{})
+		if err != nil {
+			return fmt.Errorf("NewEnvelopedDataWithSession: %v", err)
+		}
+		for _, bad := range []int{-1, 3, 255, -1 << 31} {
+			if err := ed2.AddRecipient(id(c.Recips[0]).cert, bad, func(cert *smx509.Certificate, key []byte) ([]byte, error) {
+				return pkcs7.DefaultSession{}.EncryptdDataKey(key, cert, nil)
+			}); err == nil {
+				return fmt.Errorf("AddRecipient accepts the recipient version %d (documented: 0, 1, 2): %s", bad, c.Key())
+			}
+		}
+		if out, err := ed2.Finish(); err == nil {
+			if root, err := parseAll(out); err == nil {
+				if v, err := viewEnveloped(root, true); err == nil && len(v.recips) != 0 {
+					return fmt.Errorf("refused AddRecipient calls left %d recipient infos behind: %s", len(v.recips), c.Key())
+				}
+			}
+		}
 		if sess.gen != 1 || sess.genSize != ci.c.KeySize() || sess.enc != len(c.Recips) {
 			return fmt.Errorf("session use: GenerateDataKey %d times (size %d, cipher needs %d), EncryptdDataKey %d times for %d recipients: %s",
 				sess.gen, sess.genSize, ci.c.KeySize(), sess.enc, len(c.Recips), desc())
